@@ -211,107 +211,134 @@ Section SeqSem.
   Definition more (cs : list call_ev) (o : outcome) (f : env -> status -> env * status) : outcome :=
     match o with Out cs' e st => let '(e', st') := f e st in Out (cs ++ cs') e' st' | x => x end.
 
-  Fixpoint seq_eval (fuel : nat) (e : env) (i : instr) {struct fuel} : outcome :=
-    match fuel with
-    | O => OutOfFuel
-    | S fuel' =>
-      let ev := seq_eval fuel' in
-      match i with
-      | INull => Out [] e Done
-      | INever => Out [] e Stuck
-      | ICall _ t args out =>
-          early e (resolve_peer e (t_peer t)) (fun p =>
-          early e (resolve_str e (t_service t)) (fun s =>
-          early e (resolve_str e (t_function t)) (fun f =>
-          early e (resolve_args e args) (fun vs =>
-            let c := {| c_peer := p; c_service := s; c_fn := f; c_args := vs |} in
-            if negb (known c) then Out [c] e Stuck else
-            let a := svc p s f vs in
-            if negb (an_code a =? 0)%Z then Out [c] e (Failed (FService (an_code a))) else
-            match an_value a with
-            | None => Out [c] e (Failed FNotJson)
-            | Some r =>
-                match out with
-                | OutScalar x => Out [c] (bind_var e (v_name x) r) Done
-                | OutNone => Out [c] e Done
-                | OutStream _ => OutsideFragment "stream"
-                end
-            end))))
-      | IAp _ a r =>
-          match r with
-          | ApScalar x => early e (resolve_ap e a) (fun j => Out [] (bind_var e (v_name x) j) Done)
-          | ApStream _ => OutsideFragment "stream"
-          end
-      | ISeq a b =>
-          andthen (ev e a) (fun cs e1 st =>
-            match st with
-            | Done | AtEnd => more cs (ev e1 b) (fun e2 st2 => (e2, normalize st2))
-            | _ => Out cs e1 st
-            end)
-      | IXor a b =>
-          andthen (ev e a) (fun cs e1 st =>
-            match st with
-            | Failed _ => more cs (ev e1 b) (fun e2 st2 => (e2, normalize st2))
-            | _ => Out cs e1 (normalize st)
-            end)
-      | IPar a b =>
-          andthen (ev e a) (fun cs e1 st1 =>
-            more cs (ev e1 b) (fun e2 st2 =>
-              (e2, match st1, st2 with
-                   | Failed _, Failed w => Failed w
-                   | _, _ => if is_done st1 || is_done st2 then Done else Stuck
-                   end)))
-      | IMatch _ l r body | IMisMatch _ l r body =>
-          let want := match i with IMatch _ _ _ _ => true | _ => false end in
-          early e (resolve_value e l) (fun lv =>
-          early e (resolve_value e r) (fun rv =>
-            if Bool.eqb (json_eqb lv rv) want then more [] (ev e body) (fun e1 st => (e1, normalize st))
-            else Out [] e (Failed (if want then FMatch else FMismatch))))
-      | IFail _ f =>
-          match f with
-          | FLiteral code _ => Out [] e (Failed (FUser code))
-          | _ => OutsideFragment "fail with a variable or an error object"
-          end
-      | INew _ a body _ =>
-          match a with
-          | NScalar x =>
-              more [] (ev (with_vars e ((v_name x, None) :: vars e)) body)
-                   (fun e1 st => (with_vars e1 (remove_first (vars e1) (v_name x)), normalize st))
-          | _ => OutsideFragment "new on a stream"
-          end
-      | IFoldScalar _ it iter body last _ =>
-          early e (resolve_iterable e it) (fun xs =>
-            match xs with
-            | [] => Out [] e Done
-            | _ =>
-                let st := {| is_rest := xs; is_body := body; is_last := last; is_vars := vars e |} in
-                more [] (ev {| vars := vars e; iters := (v_name iter, st) :: iters e |} body)
-                     (fun _ s => (e, normalize s))           (* what the iterations define is local to them *)
-            end)
-      | INext _ iter =>
-          match assoc (iters e) (v_name iter) with
-          | None => OutsideFragment "next outside of its fold"
-          | Some st =>
-              match is_rest st with
-              | _ :: ((_ :: _) as rest) =>
-                  let st' := {| is_rest := rest; is_body := is_body st; is_last := is_last st; is_vars := is_vars st |} in
-                  more [] (ev {| vars := is_vars st; iters := set_iter (iters e) (v_name iter) st' |} (is_body st))
-                       (fun _ s => (e, s))
-              | _ =>
-                  match is_last st with
-                  | Some li => more [] (ev e li) (fun e1 s => (e1, normalize s))
-                  | None => Out [] e AtEnd
-                  end
+  (* one level of the evaluation; [ev] evaluates the sub-instructions *)
+  Definition seq_step (ev : env -> instr -> outcome) (e : env) (i : instr) : outcome :=
+    match i with
+    | INull => Out [] e Done
+    | INever => Out [] e Stuck
+    | ICall _ t args out =>
+        early e (resolve_peer e (t_peer t)) (fun p =>
+        early e (resolve_str e (t_service t)) (fun s =>
+        early e (resolve_str e (t_function t)) (fun f =>
+        early e (resolve_args e args) (fun vs =>
+          let c := {| c_peer := p; c_service := s; c_fn := f; c_args := vs |} in
+          if negb (known c) then Out [c] e Stuck else
+          let a := svc p s f vs in
+          if negb (an_code a =? 0)%Z then Out [c] e (Failed (FService (an_code a))) else
+          match an_value a with
+          | None => Out [c] e (Failed FNotJson)
+          | Some r =>
+              match out with
+              | OutScalar x => Out [c] (bind_var e (v_name x) r) Done
+              | OutNone => Out [c] e Done
+              | OutStream _ => OutsideFragment "stream"
               end
-          end
-      | ICanon _ _ _ _ | ICanonMap _ _ _ _ | ICanonStreamMapScalar _ _ _ _ => OutsideFragment "canon"
-      | IApMap _ _ _ _ | IFoldStreamMap _ _ _ _ _ _ => OutsideFragment "stream map"
-      | IFoldStream _ _ _ _ _ _ => OutsideFragment "stream"
-      | IError => OutsideFragment "parse error node"
-      end
+          end))))
+    | IAp _ a r =>
+        match r with
+        | ApScalar x => early e (resolve_ap e a) (fun j => Out [] (bind_var e (v_name x) j) Done)
+        | ApStream _ => OutsideFragment "stream"
+        end
+    | ISeq a b =>
+        andthen (ev e a) (fun cs e1 st =>
+          match st with
+          | Done | AtEnd => more cs (ev e1 b) (fun e2 st2 => (e2, normalize st2))
+          | _ => Out cs e1 st
+          end)
+    | IXor a b =>
+        andthen (ev e a) (fun cs e1 st =>
+          match st with
+          | Failed _ => more cs (ev e1 b) (fun e2 st2 => (e2, normalize st2))
+          | _ => Out cs e1 (normalize st)
+          end)
+    | IPar a b =>
+        andthen (ev e a) (fun cs e1 st1 =>
+          more cs (ev e1 b) (fun e2 st2 =>
+            (e2, match st1, st2 with
+                 | Failed _, Failed w => Failed w
+                 | _, _ => if is_done st1 || is_done st2 then Done else Stuck
+                 end)))
+    | IMatch _ l r body | IMisMatch _ l r body =>
+        let want := match i with IMatch _ _ _ _ => true | _ => false end in
+        early e (resolve_value e l) (fun lv =>
+        early e (resolve_value e r) (fun rv =>
+          if Bool.eqb (json_eqb lv rv) want then more [] (ev e body) (fun e1 st => (e1, normalize st))
+          else Out [] e (Failed (if want then FMatch else FMismatch))))
+    | IFail _ f =>
+        match f with
+        | FLiteral code _ => Out [] e (Failed (FUser code))
+        | _ => OutsideFragment "fail with a variable or an error object"
+        end
+    | INew _ a body _ =>
+        match a with
+        | NScalar x =>
+            more [] (ev (with_vars e ((v_name x, None) :: vars e)) body)
+                 (fun e1 st => (with_vars e1 (remove_first (vars e1) (v_name x)), normalize st))
+        | _ => OutsideFragment "new on a stream"
+        end
+    | IFoldScalar _ it iter body last _ =>
+        early e (resolve_iterable e it) (fun xs =>
+          match xs with
+          | [] => Out [] e Done
+          | _ =>
+              let st := {| is_rest := xs; is_body := body; is_last := last; is_vars := vars e |} in
+              more [] (ev {| vars := vars e; iters := (v_name iter, st) :: iters e |} body)
+                   (fun _ s => (e, normalize s))           (* what the iterations define is local to them *)
+          end)
+    | INext _ iter =>
+        match assoc (iters e) (v_name iter) with
+        | None => OutsideFragment "next outside of its fold"
+        | Some st =>
+            match is_rest st with
+            | _ :: ((_ :: _) as rest) =>
+                let st' := {| is_rest := rest; is_body := is_body st; is_last := is_last st; is_vars := is_vars st |} in
+                more [] (ev {| vars := is_vars st; iters := set_iter (iters e) (v_name iter) st' |} (is_body st))
+                     (fun _ s => (e, s))
+            | _ =>
+                match is_last st with
+                | Some li => more [] (ev e li) (fun e1 s => (e1, normalize s))
+                | None => Out [] e AtEnd
+                end
+            end
+        end
+    | ICanon _ _ _ _ | ICanonMap _ _ _ _ | ICanonStreamMapScalar _ _ _ _ => OutsideFragment "canon"
+    | IApMap _ _ _ _ | IFoldStreamMap _ _ _ _ _ _ => OutsideFragment "stream map"
+    | IFoldStream _ _ _ _ _ _ => OutsideFragment "stream"
+    | IError => OutsideFragment "parse error node"
+    end.
+
+  Fixpoint seq_eval (fuel : nat) : env -> instr -> outcome :=
+    match fuel with
+    | O => fun _ _ => OutOfFuel
+    | S fuel' => seq_step (seq_eval fuel')
     end.
 
   Definition calls_of (o : outcome) : list call_ev := match o with Out cs _ _ => cs | _ => [] end.
 End SeqSem.
 
 Definition everything_known : call_ev -> bool := fun _ => true.
+
+(* multisets of calls (executable), used by the statements and the oracle of C16 *)
+Fixpoint remove_call (x : call_ev) (l : list call_ev) : option (list call_ev) :=
+  match l with
+  | [] => None
+  | y :: r => if call_eqb x y then Some r else option_map (cons y) (remove_call x r)
+  end.
+Fixpoint sub_multiset (a b : list call_ev) : bool :=
+  match a with
+  | [] => true
+  | x :: r => match remove_call x b with Some b' => sub_multiset r b' | None => false end
+  end.
+Definition known_in (l : list call_ev) : call_ev -> bool := fun c => existsb (call_eqb c) l.
+
+(* statements about the reading itself (proved in proofs/SeqProofs.v) *)
+(* more fuel, same result once the evaluation has an answer *)
+Definition C16_reading_fuel_monotone_stmt : Prop :=
+  forall svc known p ts ttl (f f' : nat) e i,
+    (f <= f')%nat -> seq_eval svc known p ts ttl f e i <> OutOfFuel ->
+    seq_eval svc known p ts ttl f' e i = seq_eval svc known p ts ttl f e i.
+(* the calls (the whole outcome) are a function of the script and of the services *)
+Definition C16_reading_function_of_services_stmt : Prop :=
+  forall svc svc' known known' p ts ttl,
+    (forall a b c d, svc a b c d = svc' a b c d) -> (forall c, known c = known' c) ->
+    forall f e i, seq_eval svc known p ts ttl f e i = seq_eval svc' known' p ts ttl f e i.
